@@ -624,6 +624,25 @@ def _has_xor(doc: dict) -> bool:
     return '["xor"' in json.dumps([doc["reactions"], doc["rules"], doc["inits"], doc["functions"]])
 
 
+def _reference_defined(doc: dict) -> bool:
+    try:
+        init_amount, const, dn0, fl0, rv0, _, _ = reference(doc, None, 0.0)
+    except (ZeroDivisionError, OverflowError, ValueError, TypeError):
+        return False
+    vals = [*init_amount.values(), *const.values(), *dn0.values(), *fl0.values(), *rv0.values()]
+    return all(not isinstance(v, complex) and v == v and abs(v) < 1e9 for v in vals)
+
+
+def _boundary_species_in_math(doc: dict) -> dict | None:
+    import json
+
+    text = json.dumps([[r["law"] for r in doc["reactions"]], [r["expr"] for r in doc["rules"]]])
+    for s_ in doc["species"]:
+        if s_["boundary"] and json.dumps(["sym", s_["id"]]) in text:
+            return s_
+    return None
+
+
 def compare(doc: dict, m, amounts: list[float], t: float, out: Outcome, tag: str) -> None:
     sp = {s["id"]: s for s in doc["species"]}
     try:
@@ -642,6 +661,10 @@ def compare(doc: dict, m, amounts: list[float], t: float, out: Outcome, tag: str
             return
         # the document's mathematics is defined (real, finite) at its own initial state, the imported model's is not
         root_ = "ids:keywords" if "ids:keywords" in doc["features"] else ("ids:module_names" if "ids:module_names" in doc["features"] else "plain-ids")
+        b0 = _boundary_species_in_math(doc)
+        if b0 is not None:
+            # a boundary species enters the math in the wrong unit (known finding): 1 + (n - B) can then be 0
+            root_ = f"boundary-species-in-math:{'amount' if b0['only_substance'] else 'concentration'}-semantics:init-{b0['init_kind']}"
         out.bad(f"{tag}imported-model-cannot-be-evaluated:{type(e).__name__}:{root_}", error=repr(e)[:200])
         return
     except Exception as e:  # noqa: BLE001
@@ -818,6 +841,11 @@ def _examine(case: dict, ctx) -> Outcome:
             if raised_inside_sympy_piecewise(e) and _has_xor(doc):
                 out.bad(f"read-raises:{type(e).__name__}:raised-in-sympy:Piecewise-with-xor-condition", error=repr(e)[:200])
                 return out
+            if not _reference_defined(doc):
+                # the document's own mathematics is undefined at its initial state (ln of a negative constant ...): a reader
+                # that evaluates constants while reading may refuse it
+                out.skipped = "reference-undefined"
+                return out
             out.bad(f"read-raises:{type(e).__name__}:{root}:{where}", error=repr(e)[:200], special=doc["special_ids"])
             return out
         if nontriv:
@@ -862,6 +890,9 @@ def _examine(case: dict, ctx) -> Outcome:
             return out
         if raised_inside_sympy_piecewise(e) and (_has_xor(doc) or _has_xor(doc2)):
             out.bad(f"session:read-raises:{type(e).__name__}:raised-in-sympy:Piecewise-with-xor-condition", error=repr(e)[:200])
+            return out
+        if not (_reference_defined(doc) and _reference_defined(doc2)):
+            out.skipped = "reference-undefined"
             return out
         out.bad(f"session:read-raises:{type(e).__name__}", error=repr(e)[:200])
         return out
